@@ -145,7 +145,7 @@ func (w *World) Handshake(a int) bool {
 	p := w.P[a]
 	w.Put(p.Idx, p.Cfg.Peer, p.Query(), true, -1, -1, "query")
 	w.Drain(100000)
-	return p.Conv.IsEncrypted() && w.P[p.Cfg.Peer].Conv.IsEncrypted()
+	return p.post().Enc && w.P[p.Cfg.Peer].post().Enc
 }
 
 func polFor(version int) int {
